@@ -245,6 +245,7 @@ class Obj:
         self.mt = mt
         self.mem = None
         self.forced = False
+        self.maybe = None   # a value the object MAY have loaded (input of a dependant whose attempt was cut short)
 
     @property
     def persisting(self):
@@ -344,6 +345,9 @@ class StoreModel:
         """Objects whose run a request of `o` triggers (lazy pull)."""
         if o.mem is not None or o in acc:
             return
+        if o.maybe is not None and (o.forced or self.store.get(self.loc(o)) != o.maybe):
+            raise model.OutOfDomain('an input of a cut-short attempt may or may not have been loaded before its stored '
+                                    'result changed')
         if o.persisting and self.loc(o) in self.store and not o.forced:
             return
         for i in mch.inputs(o):
@@ -359,6 +363,13 @@ class StoreModel:
                     raise model.OutOfDomain('a stored result was deleted while another chain held a handle to it')
                 return self.store[self.loc(o)]
             return o.mem
+        if o.maybe is not None:
+            # the library object may or may not hold `maybe` in memory: only a problem if it matters
+            now = self.store.get(self.loc(o)) if (o.persisting and not o.forced) else None
+            if now != o.maybe:
+                raise model.OutOfDomain('an input of a cut-short attempt may or may not have been loaded before its '
+                                        'stored result changed')
+            o.maybe = None
         if o.persisting and self.loc(o) in self.store and not o.forced:
             return self.store[self.loc(o)]
         return None
@@ -403,6 +414,21 @@ class StoreModel:
                 self.armed[slug] -= 1
                 failed = o
                 o.mem = None
+                # the failing task had fetched ALL its inputs before its body ran (arguments are gathered first): those
+                # served from storage are now in memory.  Dependants whose own attempt was under way had fetched SOME of
+                # theirs: which ones is an implementation detail, so they are only remembered as "maybe loaded".
+                try:
+                    self.expected_digest(mch, o, seq)
+                except model.OutOfDomain:
+                    raise
+                for x in pending:
+                    xm = mch.owner(x)
+                    for i_ in xm.mt_of(x).inputs:
+                        if i_['present']:
+                            io = xm.by_name[i_['target']]
+                            if io.mem is None and io is not o and io.persisting and self.loc(io) in self.store \
+                                    and not io.forced:
+                                io.maybe = self.store[self.loc(io)]
                 # nothing is asserted about records after a failed run - including the dependants whose own attempt had
                 # already started (and opened their log) when the input failed
                 # ... but the run info is written only after a value was stored, so a result that is still there keeps
@@ -590,11 +616,11 @@ class StoreModel:
             if err is not None:
                 raise Violation('force-raised', dict(info, error=err))
             if op.get('reset_only'):
-                o.mem = None
+                o.mem, o.maybe = None, None
                 return {'kind': 'reset', 'task': n}
             if op.get('delete') and o.persisting:
                 self.store.pop(self.loc(o), None)
-            o.forced, o.mem = True, None
+            o.forced, o.mem, o.maybe = True, None, None
             return {'kind': 'force', 'forced': [n]}
         if kind == 'force_chain':
             names = [self.task_of(mch, t) for t in op['tasks']]
@@ -625,7 +651,7 @@ class StoreModel:
                 for o in closure:
                     if op.get('delete') and o.persisting:
                         self.store.pop(self.loc(o), None)
-                    o.forced, o.mem = True, None
+                    o.forced, o.mem, o.maybe = True, None, None
                 predicted = []
                 if op.get('recompute'):
                     for o in closure:
